@@ -17,7 +17,8 @@
    No event is delivered in a history of draws, so cursor = 0, pending = 0 and wantsCursor =
    false throughout, and for Gap >= 0 every child row is >= 0, so offset stays 0: the state a
    history of draws can reach is the index [top] of the first item drawn.  (Scroll events, the
-   offset and negative rows are C19's model, model/Lists.v.)
+   offset and negative rows are C19's model, model/Lists.v; keeping a scroll position between
+   draws is what a list is for — the layout contract has to hold in every such state.)
 
    Where is that state in a widget tree?  A Dynamic passes Max.Height = 65535 to its items, and
    Center, Button and Dynamic panic on an unbounded constraint in their first statement, before
@@ -130,34 +131,26 @@ Fixpoint anchored_fields (ws : wspec) : bool :=
 
 (* ---------------------------------------------------------------- the correspondence stream *)
 
-(* one step of an observed history: input, what the long-lived object returned, what a freshly
-   built copy (same fields) returned for the same constraint *)
-Definition hist_step : Type := draw_input * draw_obs * draw_obs.
+(* one step of an observed history: the fields and the constraint at that step, and what the
+   long-lived object returned *)
+Definition hist_step : Type := draw_input * draw_obs.
 Definition hist_case : Type := list hist_step.
 
-Definition hist_inputs (c : hist_case) : list draw_input := map (fun s : hist_step => fst (fst s)) c.
-Definition hist_observed (c : hist_case) : list draw_obs := map (fun s : hist_step => snd (fst s)) c.
+Definition hist_inputs (c : hist_case) : list draw_input := map (fun s : hist_step => fst s) c.
+Definition hist_observed (c : hist_case) : list draw_obs := map (fun s : hist_step => snd s) c.
 
+(* the implementation's history is the model's: for the widgets whose Draw writes no field this
+   says that every step returns what [draw] (a function of fields and constraint) returns, so
+   any state hidden in the Go value shows up here; for list.Dynamic the model carries [top] *)
 Definition hist_matches (c : hist_case) : bool :=
   list_eqb draw_obs_eqb (hist_run 0 (hist_inputs c)) (hist_observed c).
 
-(* The property on one observed history, independent of the model: at EVERY step the layout
-   contract [draw_ok] holds for the surface the long-lived object returned, and that surface is
-   the one a fresh copy returns (Draw is a function of the fields and the constraint). *)
-Definition hist_step_contract (s : hist_step) : bool := draw_ok (fst s).
-Definition hist_step_fresh (s : hist_step) : bool := draw_obs_eqb (snd (fst s)) (snd s).
-Definition hist_case_ok (c : hist_case) : bool :=
-  forallb (fun s => hist_step_contract s && hist_step_fresh s) c.
-
-(* the guard of finding list-empty-first-item: the reachable Dynamic has left its initial
-   scroll state before some step; only the fresh-copy clause is excused, never the contract *)
-Definition hist_guard (c : hist_case) : bool :=
-  existsb (fun t => negb (t =? 0)) (hist_tops 0 (hist_inputs c)).
-Definition hist_known (c : hist_case) : bool := hist_guard c && forallb hist_step_contract c.
+(* The property on one observed history, independent of the model: the clauses of the layout
+   contract ([draw_ok]: panic only where documented, every widget of the returned tree within
+   the maximum it was given, well-formed surfaces, centring) hold at EVERY step. *)
+Definition hist_case_ok (c : hist_case) : bool := forallb draw_ok c.
 
 Definition c14_hist_mismatches (cases : list hist_case) : list Z :=
   bad_indices (fun c => negb (hist_matches c)) cases.
 Definition c14_hist_violations (cases : list hist_case) : list Z :=
   bad_indices (fun c => negb (hist_case_ok c)) cases.
-Definition c14_hist_known (cases : list hist_case) : list Z :=
-  bad_indices hist_known cases.
